@@ -8,6 +8,7 @@
 (*    errs (what fill() raised to its caller: [pos, exc]),                 *)
 (*    has2, iter2 (one IterateBins element over this histogram and then    *)
 (*    one of a second SplitIntoBins splitting by another variable "y" over *)
+(*    hasn, nest (nested split: distinct chains context.bin / context.bins of the cells), *)
 (*    the same edges: [var named in context.bin, edges] of every cell)]    *)
 (***************************************************************************)
 EXTENDS SplitIntoBinsSem, IOUtils
@@ -16,6 +17,13 @@ VARIABLE i
 Iter2Sem(edges) == LET n == Len(CellSeq(edges)) IN
                    [j \in 1..(2 * n) |-> LET b == BinSem(CellSeq(edges)[((j - 1) % n) + 1], edges, IF j <= n THEN "x" ELSE "y") IN
                                          [var |-> b.var, e |-> b.e]]
+\* NESTING: the analysis of every cell is itself SplitIntoBins (by "y", over the same edges) + IterateBins and the
+\* outer histograms (split by "x") go through a second IterateBins: every cell it yields keeps what its own context
+\* already said - the chain under context.bin is <<the outer cell in terms of x, the inner cell in terms of y>>,
+\* the chain of variables under context.bins is <<x, y>> (update_nested: the previous value moves under the new one)
+NestSem(edges) == {[bin |-> <<[var |-> "x", e |-> CellEdges(a, edges)], [var |-> "y", e |-> CellEdges(b, edges)]>>,
+                    bins |-> <<"x", "y">>] : a \in {CellSeq(edges)[n] : n \in 1..Len(CellSeq(edges))},
+                                              b \in {CellSeq(edges)[n] : n \in 1..Len(CellSeq(edges))}}
 Ok(r) == LET hs == SIBSem(r.kind, r.edges, r.flow) IN
          /\ r.form \in Forms(Len(r.edges)) /\ AxesWritten(EdgesWritten(r.edges, r.form)) = r.edges
          /\ r.hists = [k \in 1..Len(hs) |-> Nest(hs[k], r.edges)]
@@ -24,6 +32,7 @@ Ok(r) == LET hs == SIBSem(r.kind, r.edges, r.flow) IN
          /\ r.vctx = FlowCtxSem(r.kind, r.edges, r.flow)               \* contexts of the flow values afterwards
          /\ (Len(hs) > 0) => r.iter = [n \in 1..Len(CellSeq(r.edges)) |-> CellEdges(CellSeq(r.edges)[n], r.edges)]
          /\ r.iter2 = (IF r.has2 THEN Iter2Sem(r.edges) ELSE <<>>)
+         /\ (r.hasn /\ Len(r.nest) > 0) => {r.nest[k] : k \in 1..Len(r.nest)} = NestSem(r.edges)
 Init == i = 1
 Next == i <= Len(Trace) /\ Ok(Trace[i]) /\ i' = i + 1
 Spec == Init /\ [][Next]_i
